@@ -2,6 +2,7 @@
 
 UNITS = {
     'SESSION': dict(template='session.rs', rlimit=40),
+    'LINKFLOW': dict(template='linkflow.rs', rlimit=30),
 }
 
 COMMON_TRUSTED = [
@@ -20,6 +21,21 @@ PROPS = {
             'session::consecutive_chunk_indices enters with an assumed contract (iterator adapters are outside the Verus subset)',
             'in unit SESSION a link is a ghost call log whose echo answer is the contract of LinkRelay::on_incoming_disposition (sender && !settled && rcv-settle-mode second)',
             'DeliveryFut::poll (Pin/poll) and interleaving of dispositions with further sends are not decided']),
+    'C08': dict(
+        units=['LINKFLOW'], kani=[], level='proof', title='Sender link credit',
+        lemmas={'LINKFLOW': ['lemma_c08_consume_preserves_limit', 'lemma_c08_flow_establishes_limit']},
+        assumptions=[ASYNC,
+            'NOT DECIDED: "a send waiting for credit completes however the grant races with the wait" (notified().await vs notify_waiters is a two-task schedule property; no thread model in either verifier)',
+            'parking_lot::RwLock erased: each critical section is one atomic step',
+            'SenderLink::send_payload calling consume(1) exactly once per delivery before queuing frames is not under contract (select! in get_delivery_tag_or_detached)',
+            'TryConsume::try_consume (transaction feature) duplicates consume_link_credit and is not under contract']),
+    'C09': dict(
+        units=['LINKFLOW', 'SESSION'], kani=[], level='proof', title='Receiver link credit',
+        lemmas={'LINKFLOW': ['lemma_c09_threshold_reached_within_credit']},
+        assumptions=[ASYNC,
+            'parking_lot::RwLock and Arc<AtomicU32> erased: disposal concurrent with recv from another task is not modelled',
+            'ReceiverLink::on_complete_transfer calling consume(1) before building the delivery, ReceiverInner::update_credit_if_auto and set_credit are not under contract yet',
+            'the overrun error being turned into a detach frame by the link/engine is not verified']),
     'C11': dict(
         units=['SESSION'], kani=[], level='proof', title='Identifiers',
         assumptions=[ASYNC, ENGINE,
